@@ -27,6 +27,7 @@ type Parser struct {
 	function uint8
 	wbit     bool
 	strict   bool // immutable after NewParser
+	depth    int  // current list nesting depth of the item being parsed
 }
 
 // NewParser returns a Parser configured by opts (default: non-strict).
@@ -144,6 +145,7 @@ func (p *Parser) parseMsg(headerOnly bool) (*hsms.DataMessage, error) {
 	p.stream = 0
 	p.function = 0
 	p.wbit = false
+	p.depth = 0
 
 	p.skipComment()
 
@@ -313,7 +315,14 @@ func (p *Parser) parseItem() (secs2.Item, error) {
 	// parse data item body
 	switch itemType {
 	case secs2.ListFormatCode:
+		// bound the recursion like secs2.Decode does: untrusted text must not be able to
+		// exhaust the goroutine stack (a fatal, unrecoverable error).
+		p.depth++
+		if p.depth > secs2.MaxListDepth {
+			return nil, p.errf("list nesting depth exceeds maximum allowed: %d", secs2.MaxListDepth)
+		}
 		item, err = p.parseList(maxSize)
+		p.depth--
 	case secs2.ASCIIFormatCode:
 		if p.strict {
 			item, err = p.parseASCIIStrict(maxSize)
